@@ -227,22 +227,59 @@ def desc(H, n, x):
     return VBool(z3.And(H.depth(n).t <= H.depth(x).t, H.anc(x, H.depth(n)).t == n.t))
 
 
-def preorder_facts(H, x):
-    """what `preorder(x)` yields, as facts about the spec list P(x) (assumed with the contract of trees.preorder;
-    re-checked by bounded/c19.py clause preorder): x first; every element is a well-formed node dominated by x;
-    every node dominated by x occurs (at position P_idx); no node occurs twice"""
+def preorder_facts(H, x, post=False):
+    """what `preorder(x)` (`postorder(x)` with post=True) yields, as facts about the spec list P(x) (Q(x)): x first
+    (last); every element is a well-formed node dominated by x; every node dominated by x occurs (at position
+    P_idx / Q_idx); no node occurs twice"""
     from pyvc.sym import qforall
-    P = H.pre(x)
+    P = H.post(x) if post else H.pre(x)
     i, y = z3.Int(fresh_name("pi")), z3.Int(fresh_name("py"))
     el = lambda k: P.get(k).t
-    idx = lambda r: H.pre_idx(x, VRef(r)).t
+    idx = lambda r: (H.post_idx(x, VRef(r)) if post else H.pre_idx(x, VRef(r))).t
     return VBool(z3.And(
-        P.n >= 1, el(0) == x.t,
+        P.n >= 1, el(P.n - 1 if post else 0) == x.t,
         qforall([i], z3.Implies(z3.And(0 <= i, i < P.n),
                                 z3.And(el(i) != 0, tobool(WF(H, VRef(el(i)))), tobool(desc(H, x, VRef(el(i)))),
                                        idx(el(i)) == i)), [el(i)]),
         qforall([y], z3.Implies(z3.And(tobool(WF(H, VRef(y))), tobool(desc(H, x, VRef(y)))),
                                 z3.And(0 <= idx(y), idx(y) < P.n, el(idx(y)) == y)), [idx(y)]),
+    ))
+
+
+def pre_def(H, post=False):
+    """Definition of the spec list P (and of its inverse P_idx) by recursion over the ordered child lists:
+
+        P(x) = [x] ++ P(C(x)[0]) ++ ... ++ P(C(x)[m-1])          (Q(x) = Q(C(x)[0]) ++ ... ++ [x] with post=True)
+
+    through the node counts NN(x) = 1 + sum NN(C(x)[k]) and their prefix sums SNNC(x, k).  A definition by
+    well-founded recursion (conservative); the last clause (prefix sums are monotone) follows from the others by
+    induction and is stated because the solver does no induction.  Validated on enumerated trees by bounded/c19.py
+    (ghost_axioms)."""
+    from pyvc.sym import qforall
+    x, y, k, j, m = (z3.Int(fresh_name("d" + c)) for c in "xykjm")
+    wf = lambda r: tobool(WF(H, VRef(r)))
+    nn = lambda r: H.nn(VRef(r)).t
+    sn = lambda r, q: H.snnc(VRef(r), q).t
+    cel = lambda r, i: H.ochildren(VRef(r)).get(i).t
+    L = (lambda r: H.post(VRef(r))) if post else (lambda r: H.pre(VRef(r)))
+    pel = lambda r, i: L(r).get(i).t
+    plen = lambda r: L(r).n
+    pidx = (lambda r, q: H.post_idx(VRef(r), VRef(q)).t) if post else (lambda r, q: H.pre_idx(VRef(r), VRef(q)).t)
+    off = 0 if post else 1                    # where the first child's block starts
+    own = (lambda r: nn(r) - 1) if post else (lambda r: z3.IntVal(0))
+    return VBool(z3.And(
+        qforall([x], z3.Implies(wf(x), z3.And(
+            nn(x) >= 1, sn(x, 0) == 0, nn(x) == 1 + sn(x, H.nchild_t(x)), plen(x) == nn(x),
+            pel(x, own(x)) == x, pidx(x, x) == own(x))), [wf(x)]),
+        qforall([x, k], z3.Implies(z3.And(wf(x), 0 <= k, k < H.nchild_t(x)), z3.And(
+            sn(x, k) >= 0, sn(x, k + 1) == sn(x, k) + nn(cel(x, k)))), [[wf(x), cel(x, k)]]),
+        qforall([x, k, j], z3.Implies(z3.And(wf(x), 0 <= k, k < H.nchild_t(x), 0 <= j, j < nn(cel(x, k))),
+                                      pel(x, off + sn(x, k) + j) == pel(cel(x, k), j)), [[wf(x), pel(cel(x, k), j)]]),
+        qforall([x, k, y], z3.Implies(z3.And(wf(x), 0 <= k, k < H.nchild_t(x), wf(y),
+                                             tobool(desc(H, VRef(cel(x, k)), VRef(y)))),
+                                      pidx(x, y) == off + sn(x, k) + pidx(cel(x, k), y)), [[wf(x), pidx(cel(x, k), y)]]),
+        qforall([x, k, m], z3.Implies(z3.And(wf(x), 0 <= k, k <= m, m <= H.nchild_t(x)), sn(x, k) <= sn(x, m)),
+                [[wf(x), sn(x, k), sn(x, m)]]),
     ))
 
 
@@ -276,11 +313,11 @@ def add_common(reg):
         returns=lambda S, tree: S.H.pre(tree),
         ensures={"P_facts": lambda S, tree, result: preorder_facts(S.H, tree)},
         result_type=TList(REF), assumed=True,
-        note="preorder(t) == P(t): every node under t exactly once, t first; re-checked by bounded/c19.py"))
+        note="preorder(t) == P(t): every node under t exactly once, t first.  VERIFIED under C19 against the recursive definition of P (contracts/c19.py traversal_verified_contract); re-checked by bounded/c19.py"))
     reg.add(Contract(
         target="trees.trees.children", prop="C19", args=dict(tree=REF),
         requires=lambda S, tree: WF(S.H, tree) & (tree != None),
         returns=lambda S, tree: S.H.ochildren(tree),
         ensures={"C_facts": lambda S, tree, result: children_facts(S.H, tree)},
         result_type=TList(REF), assumed=True,
-        note="children(t) == C(t): t.children ordered by least token; re-checked by bounded/c19.py"))
+        note="children(t) == C(t): t.children ordered by least token.  VERIFIED under C19 against its characterisation (permutation of the stored list in strict order of least token); re-checked by bounded/c19.py"))
